@@ -29,6 +29,14 @@ OPS = [
     ("v_transform_point", "v1", "r.m0.transform_point3(r.v0)"), ("v_transform_point_rigid", "v0", "r.m1.transform_point3(r.v1)"),
     ("v_affine_point", "v1", "r.a0.transform_point3(r.v0)"), ("v_scaled_axis", "v0", "r.q1.to_scaled_axis() + Vec3::splat(0.5)"),
     ("v_refract", "v1", "r.u0.refract(r.u1, 0.5) + r.v0"),
+    # bounds that are TIED in a lane satisfy the documented precondition min <= max (a flat box, min == max)
+    ("v_clamp_flat", "v0", "r.v0.clamp(Vec3::new(-3.0, -3.0, 0.5), Vec3::new(3.0, 3.0, 0.5))"),
+    ("v_clamp_flat_a", "v1", "Vec3::from(Vec3A::from(r.v1).clamp(Vec3A::new(-3.0, -3.0, 0.5), Vec3A::new(3.0, 3.0, 0.5)))"),
+    ("v_clamp_flat_4", "v0", "r.v0.extend(1.0).clamp(Vec4::new(-3.0, -3.0, 0.5, 1.0), Vec4::new(3.0, 3.0, 0.5, 1.0)).truncate()"),
+    ("v_clamp_flat_2", "v1", "r.v1.truncate().clamp(Vec2::new(-3.0, 0.5), Vec2::new(3.0, 0.5)).extend(0.25)"),
+    ("v_clamp_flat_d", "v1", "r.v1.as_dvec3().clamp(DVec3::new(-3.0, -3.0, 0.5), DVec3::new(3.0, 3.0, 0.5)).as_vec3()"),
+    ("v_clamp_length_tied", "v1", "nz(r.v1).clamp_length(r.p0, r.p0)"),
+    ("v_clamp_signed_zero", "v0", "r.v0.clamp(Vec3::new(-3.0, -0.0, -3.0), Vec3::new(3.0, 0.0, 3.0)) + Vec3::splat(0.25)"),
     # ---- unit-quaternion producers
     ("q_from_axis_angle", "q1", "Quat::from_axis_angle(r.u0, r.s0)"), ("q_from_rotation_x", "q0", "Quat::from_rotation_x(r.s0)"),
     ("q_from_rotation_y", "q1", "Quat::from_rotation_y(r.s0 * 1.7)"), ("q_from_rotation_z", "q1", "Quat::from_rotation_z(-r.s0)"),
